@@ -84,9 +84,15 @@ Fixpoint mask_positions (from : Z) (m : list bool) : list Z :=
   | b :: m' => if b then from :: mask_positions (from + 1) m' else mask_positions (from + 1) m'
   end.
 
-(* a boolean index on an axis of length n: IndexError unless the lengths agree *)
+(* a boolean index on an axis of length n: IndexError unless the lengths agree — or the mask is
+   empty: numpy accepts a boolean index of size 0 on an axis of ANY length and selects nothing
+   (np.arange(4)[np.array([], dtype=bool)] = [], np.empty((4, 3))[np.array([], dtype=bool)].shape
+   = (0, 3); the length check of numpy's index preparation is skipped for a size-0 boolean array) *)
 Definition mask_indices (n : nat) (m : list bool) : gres (list Z) :=
-  if length m =? n then GOk (mask_positions 0 m) else GRaise EIndex.
+  match m with
+  | [] => GOk []
+  | _ :: _ => if length m =? n then GOk (mask_positions 0 m) else GRaise EIndex
+  end.
 
 (* ---- selectors ------------------------------------------------------------------------------- *)
 Inductive gitem :=
